@@ -90,6 +90,9 @@ func runStress(c Case) []violation {
 		wtxn.Commit()
 		w.total += 100
 	}
+	// writers, readers and iterator goroutines only use the initial tables: a
+	// fixed slice that the registrars never touch
+	base := append([]statedb.RWTable[*acct](nil), w.tables...)
 	w.db.Start()
 	defer w.db.Stop()
 	var wg sync.WaitGroup
@@ -114,7 +117,7 @@ func runStress(c Case) []violation {
 			seen := map[int]bool{}
 			for _, ti := range list {
 				ti = ((ti % n) + n) % n
-				metas = append(metas, w.tables[ti])
+				metas = append(metas, base[ti])
 				if !seen[ti] {
 					seen[ti] = true
 					idxs = append(idxs, ti)
@@ -126,7 +129,7 @@ func runStress(c Case) []violation {
 					defer wtxn.Abort() // no-op after Commit; releases the locks if the code under test panics
 					accts := make([]*acct, len(idxs))
 					for i, ti := range idxs {
-						t := w.tables[ti]
+						t := base[ti]
 						// C09: the revision a writer finds is the one the previous holder left
 						if rev, last := t.Revision(wtxn), w.lastRev[ti].Load(); rev != last {
 							w.fail("C09", "revision-not-continuous", "writer %d finds table %s at revision %d but the previous writer of that table left it at %d", wi, t.Name(), rev, last)
@@ -150,7 +153,7 @@ func runStress(c Case) []violation {
 					}
 					abort := c.AbortEvery > 0 && (k+1)%c.AbortEvery == 0
 					for i, ti := range idxs {
-						t := w.tables[ti]
+						t := base[ti]
 						t.Insert(wtxn, accts[i])
 						if !abort {
 							w.lastRev[ti].Store(t.Revision(wtxn))
@@ -196,7 +199,7 @@ func runStress(c Case) []violation {
 	for ii := 0; ii < c.Iterators; ii++ {
 		wg.Add(1)
 		go guard(func() {
-			t := w.tables[ii%n]
+			t := base[ii%n]
 			for k := 0; k < 20; k++ {
 				wtxn := w.db.WriteTxn(t)
 				it, err := func() (statedb.ChangeIterator[*acct], error) {
@@ -245,11 +248,11 @@ func runStress(c Case) []violation {
 				sum := 0
 				revs := make([]statedb.Revision, n)
 				for i := 0; i < n; i++ {
-					a, _, ok := w.tables[i].Get(rtxn, acctIndex.Query("acct"))
+					a, _, ok := base[i].Get(rtxn, acctIndex.Query("acct"))
 					if ok {
 						sum += a.Bal
 					}
-					revs[i] = w.tables[i].Revision(rtxn)
+					revs[i] = base[i].Revision(rtxn)
 				}
 				if int64(sum) != w.total {
 					w.fail("C02", "sum-not-conserved", "a snapshot shows a cross-table balance sum of %d, every committed state has %d: a multi-table commit was seen partially", sum, w.total)
@@ -258,16 +261,51 @@ func runStress(c Case) []violation {
 				// C01: the snapshot answers the same later on
 				sum2 := 0
 				for i := 0; i < n; i++ {
-					a, _, ok := w.tables[i].Get(rtxn, acctIndex.Query("acct"))
+					a, _, ok := base[i].Get(rtxn, acctIndex.Query("acct"))
 					if ok {
 						sum2 += a.Bal
 					}
-					if r := w.tables[i].Revision(rtxn); r != revs[i] {
-						w.fail("C01", "snapshot-changed", "a retained snapshot reported revision %d of %s, later %d", revs[i], w.tables[i].Name(), r)
+					if r := base[i].Revision(rtxn); r != revs[i] {
+						w.fail("C01", "snapshot-changed", "a retained snapshot reported revision %d of %s, later %d", revs[i], base[i].Name(), r)
 					}
 				}
 				if sum2 != sum {
 					w.fail("C01", "snapshot-changed", "a retained snapshot answered differently when re-read (%d then %d)", sum, sum2)
+				}
+			}
+		}()
+	}
+	// watchers (C06): a goroutine woken by a watch channel must find a newer
+	// table revision than the snapshot the channel came from
+	for wi := 0; wi < c.Readers; wi++ {
+		rwg.Add(1)
+		go func() {
+			defer rwg.Done()
+			defer func() {
+				if r := recover(); r != nil {
+					w.fail("C05", "panic", "watcher panicked: %v", r)
+				}
+			}()
+			t := base[wi%n]
+			for {
+				rtxn := w.db.ReadTxn()
+				rev := t.Revision(rtxn)
+				var watch <-chan struct{}
+				switch wi % 3 {
+				case 0:
+					_, watch = t.AllWatch(rtxn)
+				case 1:
+					_, _, watch, _ = t.GetWatch(rtxn, acctIndex.Query("acct"))
+				default:
+					_, watch = t.LowerBoundWatch(rtxn, statedb.ByRevision[*acct](0))
+				}
+				select {
+				case <-stopReaders:
+					return
+				case <-watch:
+				}
+				if now := t.Revision(w.db.ReadTxn()); now <= rev {
+					w.fail("C06", "early-wakeup", "a goroutine woken by the watch channel of a query on %s (snapshot revision %d) takes a snapshot and still sees revision %d", t.Name(), rev, now)
 				}
 			}
 		}()
@@ -362,7 +400,7 @@ func genCase(t *rapid.T) Case {
 	return c
 }
 
-const rule = "free-running goroutines without schedule control (real parallelism on all cores; built with -race in the thorough tier): 2-6 writers each running 50-500 write transactions over generated table lists (read counter, write counter+1, transfer between two tables, every n-th aborted), 1-4 readers re-reading snapshots, 0-2 goroutines registering 5-60 new tables meanwhile, 0-2 goroutines creating/consuming/closing change iterators, the graveyard worker running. Interleaving-independent invariants: the counter a writer reads equals the increments committed before it got the table; the revision it finds is the one the previous holder left; every snapshot shows the conserved balance sum and answers the same when re-read; final counters equal committed increments; every registered table is in the root and usable; progress watchdog. Non-trivial = a round with >=2 writers sharing a table and a registrar or reader running; distinct by case encoding (each case is one stress round)."
+const rule = "free-running goroutines without schedule control (real parallelism on all cores; built with -race in the thorough tier): 2-6 writers each running 50-500 write transactions over generated table lists (read counter, write counter+1, transfer between two tables, every n-th aborted), 1-4 readers re-reading snapshots, 0-2 goroutines registering 5-60 new tables meanwhile, 0-2 goroutines creating/consuming/closing change iterators, the graveyard worker running. Interleaving-independent invariants: the counter a writer reads equals the increments committed before it got the table; the revision it finds is the one the previous holder left; every snapshot shows the conserved balance sum and answers the same when re-read; a goroutine woken by an All/Get/LowerBound watch channel finds a newer table revision; final counters equal committed increments; every registered table is in the root and usable; progress watchdog. Non-trivial = a round with >=2 writers sharing a table and a registrar or reader running; distinct by case encoding (each case is one stress round)."
 
 func stressTest(t *testing.T, prop, test string) {
 	var c Case
@@ -445,5 +483,6 @@ func mustJSON(v any) json.RawMessage {
 func TestC01Stress(t *testing.T) { stressTest(t, "C01", "TestC01Stress") }
 func TestC02Stress(t *testing.T) { stressTest(t, "C02", "TestC02Stress") }
 func TestC05Stress(t *testing.T) { stressTest(t, "C05", "TestC05Stress") }
+func TestC06Stress(t *testing.T) { stressTest(t, "C06", "TestC06Stress") }
 func TestC09Stress(t *testing.T) { stressTest(t, "C09", "TestC09Stress") }
 func TestC10Stress(t *testing.T) { stressTest(t, "C10", "TestC10Stress") }
